@@ -5,7 +5,7 @@ import scen_common, prop_mu_family
 PID = "C02"
 PROP_V = ["Props/Properties_C02.v", "Props/Properties_C02b.v", "Props/Properties_C02c.v", "Props/Properties_C06x.v"]
 GEN_MODULES = ["Consts", "Sites"]
-FLOW_FILES = ['mu.c', 'mu_wait.c']
+FLOW_FILES = ['mu.c', 'mu_wait.c', 'common.c', 'nsync_semaphore_futex.c']
 REPLAY_HINT = "VRT_SEED=<seed> [env] _work/h/<scenario>; a STUCK report lists the sleeping threads and the last steps"
 PARTIAL = ["hand-off for the mutex WITH conditional critical sections (MuWaitModel, repaired code): Properties_C06x.C06_sleeper_faces_holder and C06_handoff: in every "
            "reachable quiescent world every thread asleep in nsync_mu_lock / nsync_mu_rlock / nsync_mu_wait faces a mutex that some thread still holds (or, for a "
